@@ -2,11 +2,12 @@
 # tools/seeded_matrix.sh [tier] [filter] : run each seeded change against the
 # check of its own property (scratch worktree, VERIF_REPO); prints one line
 # per change.  Needs scratch worktrees /tmp/wt2/CXX (or creates one).
-tier=${1:-quick}; flt=${2:-}
+tier=${1:-quick}; flt=${2:-}; k=0   # PART=0|1: every other entry (two runs side by side)
 wt=${WT:-/tmp/wt-matrix}
 if [ ! -d $wt ]; then git -C /repo worktree add -q --detach $wt HEAD && cp /repo/biom/_*.so /repo/biom/_*.c $wt/biom/; fi
 git -C $wt checkout -q --detach $(git -C /repo rev-parse HEAD)
 for d in /verif/seeded/*${flt}*/; do
+  if [ -n "$PART" ]; then k=$((k+1)); if [ $((k % 2)) -ne "$PART" ]; then continue; fi; fi
   id=$(basename $d); prop=${id%-*}
   if grep -q '"status_at_repo_HEAD": "equivalent' $d/meta.json 2>/dev/null; then echo "$id SKIPPED (equivalent at repo HEAD, see meta.json)"; continue; fi
   git -C $wt checkout -q -- biom
@@ -14,7 +15,7 @@ for d in /verif/seeded/*${flt}*/; do
      if ! git -C $wt apply --3way $d/patch.diff >/dev/null 2>&1; then echo "$id PATCH-DOES-NOT-APPLY"; git -C $wt reset -q --hard; continue; fi
      git -C $wt reset -q
   fi
-  out=$(VERIF_REPO=$wt VERIF_EVIDENCE_DIR=/tmp/ev-mut VERIF_NO_SAN=1 ./check $prop --tier $tier 2>&1); rc=$?
+  out=$(VERIF_REPO=$wt VERIF_EVIDENCE_DIR=/tmp/ev-mut-$(basename $wt) VERIF_NO_SAN=1 ./check $prop --tier $tier 2>&1); rc=$?
   echo "$id rc=$rc $(echo "$out" | grep -E '^# ' | head -2 | cut -c3-90 | tr '\n' '|')"
 done
 git -C $wt checkout -q -- biom
